@@ -1331,6 +1331,9 @@ class BaseImage(metaclass=ImageMeta):
         prev_seek_pos = self._seek_position
         duration = self._frame_duration
         image_it = ImageIterator(self, repeat, "", cached)
+        # The iterator opens the image on its own; use the one opened for drawing instead
+        image_it._animator.close()
+        self._close_image(image_it._img)
         image_it._animator = image_it._animate(img, alpha, fmt, style_args)
         # A parameter of zero is treated as one by terminal emulators
         cursor_up = CURSOR_UP % (lines - 1) if lines > 1 else ""
